@@ -7,7 +7,7 @@ _spec.loader.exec_module(_nodes)
 META = dict(
     engine="E-CHAIN",
     technique="Lean 4 proof (index exactness as part of the structural invariant of the x/nodes store: every keeper operation is shown to replace one record and adjust each index accordingly; induction over arbitrary operation lists) + raw store prefixes of the real app decoded and checked after every phase of every block",
-    level_text="Kernel-checked for all histories: the staked-by-power index (0x23) lists exactly the staked unjailed nodes under their current power, without duplicates; the per-chain index (0x22) exactly the staked nodes under each declared chain; the unstaking queue (0x41) exactly (as a set) the unstaking nodes under their completion time; no entry of these names a missing or differently-stated node. Counterexample theorem for the waiting set (0x43): a dangling key is reachable and delays other nodes' release by one session. Tie: prefixes 0x21/0x22/0x23/0x31/0x41/0x43/0x11/0x12 of the real store are dumped raw after every BeginBlock / DeliverTx / keeper call / EndBlock, decoded, compared with the model transition and judged by the same decidable predicates.",
+    level_text="Kernel-checked for all histories: the staked-by-power index (0x23) lists exactly the staked unjailed nodes under their current power, without duplicates; the per-chain index (0x22) exactly the staked nodes under each declared chain; the unstaking queue (0x41) exactly (as a set) the unstaking nodes under their completion time; no entry of these names a missing or differently-stated node. Counterexample theorems for the read path of 0x22 (GetValidatorsByChain is a prefix scan of 0x22||identifier without separator and identifiers of 1 and 2 bytes are accepted: a shorter query returns 21-byte, a longer query 19-byte pseudo-addresses; exact when all indexed identifiers have the query's length) and for the waiting set (0x43): a dangling key is reachable and delays other nodes' release by one session. Tie: prefixes 0x21/0x22/0x23/0x31/0x41/0x43/0x11/0x12 of the real store are dumped raw after every BeginBlock / DeliverTx / keeper call / EndBlock, decoded, compared with the model transition and judged by the same decidable predicates; the real GetValidatorsByChain is called after every block for every declared identifier and the colliding ones and judged against 'exactly the staked nodes declaring it'.",
     level_note=_nodes.NOTE,
 )
 
